@@ -68,6 +68,7 @@ pub fn generate(property: &str, seed: u64, tier: Tier) -> Plan {
         ("compact", if rewrite { 2 } else { 0 }),
         ("chpw_folder", if rewrite { 1 } else { 0 }),
         ("trust", 1),
+        ("stale_patch", if property == "C07" { 8 } else { 0 }),
     ];
     for (name, x) in w.iter_mut() {
         if matches!(*name, "create" | "sync") {
@@ -119,6 +120,7 @@ pub fn generate(property: &str, seed: u64, tier: Tier) -> Plan {
             "compact" => json!({"op":"compact","dev":dev,"fslot":any_folder(&mut r)}),
             "chpw_folder" => json!({"op":"chpw_folder","dev":dev,"fslot":any_folder(&mut r),"val":val}),
             "trust" => json!({"op":"trust","dev":dev,"key":r.below(2),"revoke":r.chance(1,3)}),
+            "stale_patch" => json!({"op":"stale_patch","dev":dev,"log":r.below(8),"depth":r.below(4),"proof": if r.chance(1,2) {"forged"} else {"stale"}}),
             other => json!({"op":other,"dev":dev}),
         };
         steps.push(s);
@@ -378,6 +380,7 @@ pub async fn execute(plan: Plan, dir: &Path) -> RunOutcome {
                 r
             }
             "trust" => no::trust_op(&mut world, di, s, &mut rec).await,
+            "stale_patch" => no::stale_patch_op(&mut world, di, s, &mut rec).await,
             _ => {
                 // a local edit on device di
                 let before = no::device_log_lens(&world.devices[di].dev).await;
